@@ -32,7 +32,10 @@ MODELLED = {"CheckTernary": "check_ternary", "CheckLineLen": "check_line_len", "
             # third batch (Gen/NameChecks.v): other signatures, adapted to `result` in the cases file; extra inputs xf xp xv xc
             "CheckIdentifierName": "adapt_ident xf xp xv", "CheckComment": "adapt_comment xc",
             # fourth batch (Gen/PreprocChecks.v): needs the token values (xw) and context.preproc.indent (xi)
-            "CheckPreprocessorIndent": "adapt_ppi xi xw"}
+            "CheckPreprocessorIndent": "adapt_ppi xi xw",
+            # (Gen/PreprocChecks2.v): the whole history and scope.include_allowed (view); xi = 1 for context.preproc.skip_define
+            "CheckPreprocessorInclude": "adapt_ppn xw", "CheckPreprocessorDefine": "adapt_ppd xi xw"}
+PP_CHECKS = ("CheckPreprocessorIndent", "CheckPreprocessorInclude", "CheckPreprocessorDefine")
 # slices: only these codes are emitted by the translated part (Gen: check_*_codes); an exception of the untranslated rest is not compared
 SLICE_CODES = {"CheckUtypeDeclaration": {"TYPE_NOT_GLOBAL", "FORBIDDEN_STRUCT", "FORBIDDEN_UNION", "FORBIDDEN_ENUM", "FORBIDDEN_TYPEDEF"},
                "CheckControlStatement": {"WRONG_SCOPE", "EXP_NEWLINE", "FORBIDDEN_CS", "ASSIGN_IN_CONTROL"}}
@@ -96,6 +99,11 @@ def _install_probe():
         if name == "CheckPreprocessorIndent":
             item["glob"] = isinstance(sc, GlobalScope)
             item["xi"] = context.preproc.indent
+        if name == "CheckPreprocessorDefine":
+            item["xi"] = 1 if context.preproc.skip_define else 0
+        if name == "CheckPreprocessorInclude":
+            # is_in_start_of_file looks at the whole history
+            item["hist"], item["hist_cut"] = [h.name for h in reversed(hist)], False
         # which token positions the check really reads (peek_token is the only accessor besides tokens[:tkn_scope])
         reads = [-1, 0]
         orig_peek = context.peek_token
@@ -130,7 +138,7 @@ def _install_probe():
                 win = [(t.type, t.pos[0], t.pos[1]) for t in toks0]
                 cut = False
             item["win"], item["cut"], item["maxread"] = win, cut, reads[0]
-            if name == "CheckPreprocessorIndent":
+            if name in PP_CHECKS:
                 item["xw"] = [t.value for t in (toks0 if len(win) == len(toks0) else toks0[:m] + [toks0[-1]])][:len(win)]
             item["line0"] = win[0][1] if win else None
             item["em"] = [(e.name, e.highlights[0].lineno, e.highlights[0].column) for e in inner[before:]
@@ -201,7 +209,7 @@ def coq_cases_text(cases, types, rules, codes):
     The window is exact: it holds every position the implementation read (recorded through peek_token), and the last
     token of the file for the index -1; when the history is cut, at least three entries and the newest three that
     CheckLineIndent does not skip are kept (the len(history) tests of the checks compare with 1 only)."""
-    o = ["From NV Require Import Model.Base Model.RuleChecks Gen.RuleChecks Gen.MoreChecks Model.NameBase Gen.NameChecks Model.PreprocBase Gen.PreprocChecks.\nOpen Scope Z_scope.\n"]
+    o = ["From NV Require Import Model.Base Model.RuleChecks Gen.RuleChecks Gen.MoreChecks Model.NameBase Gen.NameChecks Model.PreprocBase Gen.PreprocChecks Model.PreprocBase2 Gen.PreprocChecks2.\nOpen Scope Z_scope.\n"]
     o.append("Definition tys : list str := [%s].\n" % "; ".join('s "%s"' % t for t in types))
     o.append("Definition rls : list str := [%s].\n" % "; ".join('s "%s"' % t for t in rules))
     o.append("Definition cds : list str := [%s].\n" % "; ".join('s "%s"' % t for t in codes))
@@ -212,6 +220,12 @@ def coq_cases_text(cases, types, rules, codes):
              "  | Ok E => Ok (E, v) | Fatal m => Fatal m | Crash e => Crash e | Hang => Hang end.\n")
     o.append("Definition adapt_comment (xc : str) (toks : list token) (scope : Z) (v : view) : result := Ok (check_comment toks (v_history v) xc, v).\n")
     o.append("Definition S_ (l : list nat) : str := map N.of_nat l.\n")
+    o.append("Definition lift_ (r : outcome (list em)) (v : view) : result :=\n"
+             "  match r with Ok E => Ok (E, v) | Fatal m => Fatal m | Crash e => Crash e | Hang => Hang end.\n"
+             "Definition adapt_ppn (xw : list (option str)) (toks : list token) (scope : Z) (v : view) : result :=\n"
+             "  lift_ (check_preproc_include (with_vals toks xw) (v_history v) (v_include_allowed v)) v.\n"
+             "Definition adapt_ppd (xi : Z) (xw : list (option str)) (toks : list token) (scope : Z) (v : view) : result :=\n"
+             "  lift_ (check_preproc_define (with_vals toks xw) (xi =? 1)) v.\n")
     o.append("Definition adapt_ppi (xi : Z) (xw : list (option str)) (toks : list token) (scope : Z) (v : view) : result :=\n"
              "  match check_preproc_indent (with_vals toks xw) (v_scope_global v) xi with\n"
              "  | Ok E => Ok (E, v) | Fatal m => Fatal m | Crash e => Crash e | Hang => Hang end.\n")
